@@ -31,6 +31,16 @@ PROPS = {
             "Gamma for Theory (map/collect over the formulas) is not under contract: iterator adapters over a user type are outside Verus' subset",
         ],
     },
+    "C19": {
+        "units": ["break"],
+        "level": "proof",
+        "property_obligations": ["lemma_break_cl", "lemma_break_ht", "lemma_break_len", "lemma_forall_distrib"],
+        "carriers": ["break_equivalences_formula", "Formula::quantify", "Formula::unbox", "UnboxedFormula::rebox"],
+        "explanation": "eq-break half of C19: Verus proves that the real break_equivalences_formula (with the real unbox/rebox/quantify) returns "
+                       "spec_break(F), and that the family spec_break(F) is satisfied by exactly the interpretations and assignments that satisfy F, "
+                       "classically and in here-and-there (both worlds), for every formula (equivalences under any universal prefix).",
+        "assumptions": [],
+    },
 }
 
 
